@@ -124,10 +124,7 @@ impl Symbol {
             Symbol::ParamVar(_, ty) => Some(ty.as_ref().clone()),
             Symbol::RecordField(x) => Some(x.r#type.clone()),
             Symbol::Input(x) => x.datum_is().cloned(),
-            x => {
-                dbg!(x);
-                None
-            }
+            _ => None,
         }
     }
 }
